@@ -14,7 +14,7 @@ ORACLE_DOC = ('on the real boundary traces around every time_split: per parent k
               'sessions computed from the statement (reference = first item of the window or the closing item before it; new window iff '
               't >= ref + active or t >= last + inactive; otherwise a closing item ends the window, inclusive or exclusive)')
 KNOWN_MATCHERS = {}
-oracle = make_oracle(('time_split',), close_order=True)
+_oracle = make_oracle(('time_split',), close_order=True)
 
 
 def timeline(gaps):
@@ -26,7 +26,7 @@ def timeline(gaps):
     return out
 
 
-def cases(tier, rng):
+def _cases(tier, rng):
     yield {'kind': 'mux', 'term': [['time_split', {'time': ['id'], 'active': 5, 'inactive': 3, 'closing': None, 'include': True}, [['to_list']]]],
            'items': [1, 2, 3, 4, 5, 6, 10, 12]}
     a, b = 5, 3
@@ -81,3 +81,14 @@ def tags(case, r):
             if c.get('datetime'):
                 t.append('datetime')
     return t
+
+
+def cases(tier, rng):
+    """every case of `_cases`, and for a fraction of the mux/plain ones the same case run as the SECOND subscription of
+    its pipeline object (after an earlier subscription that completed, failed or was disposed)"""
+    pr = rng.sub('resubscription')
+    return muxprop.with_preludes(_cases(tier, rng), pr)
+
+
+def oracle(case, r):
+    return muxprop.prelude_violation(case, r) or _oracle(case, r)
